@@ -244,6 +244,12 @@ def step (j : Json) : Except String Json := do
     match nodeAt p (getStrList j "node") with
     | some q => pure (Json.mkObj [("ok", cfgToJson (layerC E fuel fl.single ctx fl.mode q))])
     | none => pure (Json.mkObj [("bad-node", .null)])
+  | "layereo" =>
+    let p ← pOfJson (j.getObjValD "p")
+    let E ← envOfJson (j.getObjValD "E")
+    match nodeAt p (getStrList j "node") with
+    | some q => pure (Json.mkObj [("ok", cfgToJson (layerEO E fuel fl.single q))])
+    | none => pure (Json.mkObj [("bad-node", .null)])
   | "envvar" =>
     pure (Json.mkObj [("ok", .str (ofCodes (envVarAt (codes (getStr j "root")) ((getStrList j "path").map codes) (codes (getStr j "dest")))))])
   | "merge" =>
